@@ -137,6 +137,21 @@ func runC18(c *Ctx) {
 				c.Violate("parse", fmt.Sprintf("version string %q denotes %v but parsed to %+v (err=%v)", s, *denotes, v, err), map[string]interface{}{"string": s})
 			}
 		}
+		// monitor for malformed strings: each of the first three dot-separated fields that is present must be an integer
+		// (the third up to its first '-'); a string that breaks this denotes no version
+		if err == nil && v != nil {
+			fs := strings.Split(s, ".")
+			for k := 0; k < len(fs) && k < 3; k++ {
+				f := fs[k]
+				if k == 2 {
+					f = strings.Split(f, "-")[0]
+				}
+				if _, e := strconv.Atoi(f); e != nil {
+					c.Violate("parse", fmt.Sprintf("version string %q was accepted as %+v although its field %d (%q) is not an integer", s, *v, k+1, f), map[string]interface{}{"string": s})
+					break
+				}
+			}
+		}
 		pc = append(pc, gal.Tuple(gal.Bytes([]byte(s)), obs))
 		pR = append(pR, J(map[string]interface{}{"kind": "parse", "string": s, "parsed": v, "err": fmt.Sprint(err)}))
 	}
